@@ -951,13 +951,13 @@ class C15(common.Prop):
         ident = impl.get('ident') or impl.get('ident_before')
         wbl = lit.lst(['(%s, %s, %s, %s)' % (lit.z(l), lit.z(an), lit.b(w), lit.b(c)) for l, an, w, c in case.get('wb', [])])
         return ('{| c_judged := %s; c_before := %s; c_after := %s; c_ret := %s; c_atoms := %s; c_bonds := %s; '
-                'c_ident := %s; c_chiral := %s; c_rel := %s; c_wb := ' + wbl + ' |}'
+                'c_ident := %s; c_chiral := %s; c_rel := %s; c_wb := %s |}'
                 % (lit.b(case.get('judged', True)), '(Some %s)' % before if before else 'None',
                    '(Some %s)' % after if after else 'None',
                    '(Some %s)' % ret if ret else 'None',
                    atoms, bonds,
                    lit.lst([lit.pair(lit.z(a), lit.z(b)) for a, b in ident]) if ident is not None else '[]',
-                   chir, rel))
+                   chir, rel, wbl))
 
     def python_oracle(self, case, impl):
         return py_oracle(case, impl)
